@@ -1,6 +1,6 @@
 (* Correspondence checker for the S-wire / S-req slices: real clients and the real
    OrdaService (over the in-memory store) against Wire.v + Server.v. *)
-From Orda.Model Require Import Base Time Ops Counter Map List Datatype Replicas CheckCrdt Server Wire.
+From Orda.Model Require Import Base Time Ops Counter Map List Datatype Replicas CheckCrdt Server Wire Net.
 Open Scope N_scope.
 
 Definition cp_eq := cp_eqb.
@@ -31,8 +31,6 @@ Definition pub_eqb (a b : publish) : bool :=
   str_eqb (pb_col a) (pb_col b) && str_eqb (pb_key a) (pb_key b) && str_eqb (pb_cuid a) (pb_cuid b) &&
   str_eqb (pb_duid a) (pb_duid b) && N.eqb (pb_sseq a) (pb_sseq b).
 
-(* how the exchange is disturbed (S-fault-net) *)
-Inductive fault := FNone | FDupRequest | FDropResponse.
 
 Section Check.
   Variable St call ret J : Type.
@@ -60,6 +58,7 @@ Section Check.
   | WLocal (di : nat) (c : call) (o : obs) (view : val) (size : Z)
   | WTx (di : nat) (tag : str) (cs : list call) (fail : bool) (os : list obs) (view : val) (size : Z)
   | WSync (di : nat) (f : fault) (req resp : ppp) (g : dbdig) (pubs : list publish) (a : aobs)
+  | WApply (di : nat) (resp : ppp) (a : aobs)                                    (* a held-back or second response is applied *)
   | WRaw (col cuid : str) (req resp : ppp) (g : dbdig) (pubs : list publish)     (* a mutated request, response not applied *)
   | WRawErr (col cuid : str) (req : ppp) (rpc : N) (g : dbdig).                  (* refused by ProcessPushPull itself *)
 
@@ -109,33 +108,21 @@ Section Check.
     | WSync di f req resp g pubs a =>
         match nth_error (ws_dts s) di with
         | Some (col, cuid, w) =>
-            let mreq := mkpack St call J k_type w in
-            if negb (ppp_eqb mreq req) then None else
-            (* a duplicated request is handled twice; the client sees the second response *)
-            let '(db1, r1) := process_pushpull (ws_db s) col cuid [mreq] in
-            let '(db2, r2, allpubs) :=
-              match f, r1 with
-              | FDupRequest, inl [(_, pubs1)] =>
-                  let '(db2, r2) := process_pushpull db1 col cuid [mreq] in
-                  (db2, r2, match r2 with inl [(_, pubs2)] => pubs1 ++ pubs2 | _ => pubs1 end)
-              | _, inl [(_, pubs1)] => (db1, r1, pubs1)
-              | _, _ => (db1, r1, [])
-              end in
-            match r2 with
-            | inl [(mresp, _)] =>
-                if ppp_eqb mresp resp && db_matches db2 g && list_eqb pub_eqb allpubs pubs then
-                  match f with
-                  | FDropResponse =>
-                      (* the response is lost: the client is unchanged *)
-                      if aobs_ok w (mkApplied None false false) a then Some (mkWsys db2 (ws_dts s)) else None
-                  | _ =>
-                      match apply_pack St call J k_init k_remote k_export w mresp with
-                      | AOk _ _ _ w' ap => if aobs_ok w' ap a then Some (set_dt (mkWsys db2 (ws_dts s)) di (col, cuid, w')) else None
-                      | APanic _ _ _ => None
-                      end
-                  end
-                else None
+            if negb (ppp_eqb (mkpack St call J k_type w) req) then None else
+            match exchange St call J k_init k_remote k_export k_type (ws_db s) col cuid w f with
+            | XOk db' mresp mpubs w' ap =>
+                if ppp_eqb mresp resp && db_matches db' g && list_eqb pub_eqb mpubs pubs && aobs_ok w' ap a
+                then Some (set_dt (mkWsys db' (ws_dts s)) di (col, cuid, w')) else None
             | _ => None
+            end
+        | None => None
+        end
+    | WApply di resp a =>
+        match nth_error (ws_dts s) di with
+        | Some (col, cuid, w) =>
+            match apply_pack St call J k_init k_remote k_export w resp with
+            | AOk _ _ _ w' ap => if aobs_ok w' ap a then Some (set_dt s di (col, cuid, w')) else None
+            | APanic _ _ _ => None
             end
         | None => None
         end
@@ -200,6 +187,7 @@ Arguments WLocal {call}.
 Arguments WTx {call}.
 Arguments WSync {call}.
 Arguments WRaw {call}.
+Arguments WApply {call}.
 Arguments WRawErr {call}.
 
 Definition check_wire_counter : list (wev ccall) -> bool :=
